@@ -92,7 +92,8 @@ def gen_cases(ctx):
                     calls.append(["node_id", rng.choice([7, 8])])
             yield {"kind": "mesh", "master": master, "calls": calls, "seed": rng.getrandbits(30),
                    "fault": rng.choice([None, None, "ack_loss"]), "fault_k": 0,
-                   "profile": N.rand_profile(rng, base=base), "others": rng.randrange(0, 2)}
+                   "profile": N.rand_profile(rng, base=base), "others": rng.randrange(0, 2),
+                   "dut_cls": rng.choice(["meshnm", "mesh"])}
     # samples of the other network workloads with this monitor deciding
     k = 0
     for gen, tag, every in ((c05.gen_cases, "c05", 6), (c13.gen_cases, "c13", 20), (c14.gen_cases, "c14", 16)):
@@ -254,7 +255,7 @@ def _run_mesh(ctx, case, net):
         mnode = net.add("mesh", ("id", 0), profile=case["profile"])
     for j in range(case["others"]):
         net.add("net", [0o1, 0o2][j], profile=case["profile"])
-    dut = net.add("meshnm", ("id", 7), profile=case["profile"])
+    dut = net.add("mesh" if case.get("dut_cls") == "mesh" else "meshnm", ("id", 7), profile=case["profile"])
     net.air.fault = _fault(case, net, dut.radio)
     for call in case["calls"]:
         def fn(nn, call=call):
